@@ -170,6 +170,8 @@ Inductive routing :=
 | RNotDispatched                       (* no destination, not a signal *)
 | RNoOwner                             (* destination has no owner: error reply, nobody gets a copy *)
 | RToDriver                            (* destination org.freedesktop.DBus: see the handle_* functions *)
+| RRejected                            (* unknown message type: bus_context_check_security_policy refuses it
+                                          ("Message bus will not accept messages of unknown type"), nobody gets a copy *)
 | RDelivered (rcpts : list conn).      (* addressed recipient first (if any), then the match recipients *)
 
 Definition dispatch (ns : names) (mk : mm) (c : conn) (m : msg) : option routing :=
@@ -186,6 +188,7 @@ Definition dispatch (ns : names) (mk : mm) (c : conn) (m : msg) : option routing
       match owner_of ns d with
       | None => Some RNoOwner
       | Some a =>
+          if negb (valid_type (m_type m)) then Some RRejected else
           match get_recipients ns mk (Some c) (Some a) m with
           | None => None
           | Some l => Some (RDelivered (a :: l))
